@@ -18,6 +18,52 @@ import (
 
 var startMu sync.Mutex
 
+// regMux is installed once as prometheus.DefaultRegisterer/DefaultGatherer so that several agent
+// instances can live in one process without the harness ever writing those globals again (an
+// agent that is stopping reads them). Registrations go to the registry of the instance that is
+// being started; unregistrations are tried on all.
+type regMux struct {
+	mu  sync.Mutex
+	cur *prometheus.Registry
+	all []*prometheus.Registry
+}
+
+func (m *regMux) set(r *prometheus.Registry) {
+	m.mu.Lock()
+	m.cur = r
+	m.all = append(m.all, r)
+	if len(m.all) > 64 {
+		m.all = m.all[len(m.all)-64:]
+	}
+	m.mu.Unlock()
+}
+
+func (m *regMux) get() *prometheus.Registry {
+	m.mu.Lock()
+	defer m.mu.Unlock()
+	if m.cur == nil {
+		m.cur = prometheus.NewRegistry()
+		m.all = append(m.all, m.cur)
+	}
+	return m.cur
+}
+
+func (m *regMux) Register(c prometheus.Collector) error   { return m.get().Register(c) }
+func (m *regMux) MustRegister(cs ...prometheus.Collector) { m.get().MustRegister(cs...) }
+func (m *regMux) Unregister(c prometheus.Collector) bool {
+	m.mu.Lock()
+	all := append([]*prometheus.Registry(nil), m.all...)
+	m.mu.Unlock()
+	ok := false
+	for _, r := range all {
+		ok = r.Unregister(c) || ok
+	}
+	return ok
+}
+func (m *regMux) Gather() ([]*dto.MetricFamily, error) { return m.get().Gather() }
+
+var promMux = &regMux{}
+
 func init() {
 	lvl := zapcore.FatalLevel
 	if v := os.Getenv("VERIF_LOG"); v != "" {
@@ -30,6 +76,8 @@ func init() {
 	// In-process the BESS plug-in's join budget is raised so that a loaded machine
 	// cannot turn a slow write into a "missing entry" (DESIGN.md section 5, rule 6).
 	pfcpiface.Timeout = 30 * time.Second
+	prometheus.DefaultRegisterer = promMux
+	prometheus.DefaultGatherer = promMux
 }
 
 // Agent is one in-process instance of the real PFCP agent.
@@ -110,8 +158,7 @@ func StartAgent(conf pfcpiface.Conf, bessAddr string) (*Agent, error) {
 	defer startMu.Unlock()
 
 	reg := prometheus.NewRegistry()
-	prometheus.DefaultRegisterer = reg
-	prometheus.DefaultGatherer = reg
+	promMux.set(reg)
 	if bessAddr != "" {
 		if err := flag.Set("bess", bessAddr); err != nil {
 			return nil, err
